@@ -132,6 +132,7 @@ static int bfCode(StringRef m) {
     {"unexpected 'nodes' value (expected map)", 7}, {"unexpected 'commands' value (expected map)", 8},
     {"unexpected trailing top-level section", 9}, {"missing document in stream", 10},
     {"unexpected additional document in stream", 11},
+    {"unable to parse the build file (malformed YAML)", 13},
     {"invalid key type in 'client' map", 20}, {"invalid value type in 'client' map", 21},
     {"invalid version number in 'client' map", 22}, {"unable to configure client", 23},
     {"invalid key type in 'tools' map", 30}, {"invalid value type in 'tools' map", 31},
